@@ -18,11 +18,31 @@ _TMP = None
 
 def to_py(t, k=[0]):
     if t[0] == "num":
-        return float(t[1]) if t[1] == 1 else int(t[1])
+        # a threshold is any real number: Python float / int, numpy scalars of several widths, a Fraction
+        import fractions
+
+        import numpy as _np
+
+        k[0] += 1
+        kinds = (float, int, _np.float64, _np.float32, _np.int64, lambda v: fractions.Fraction(int(v), 1), float, int)
+        return kinds[k[0] % len(kinds)](t[1])
     if t[0] == "bad":
         k[0] += 1
         return BADS[k[0] % len(BADS)]
     return [to_py(x, k) for x in t[1]]
+
+
+def plainnum(x):
+    """numbers of any kind -> float, lists recursively; everything else as it is (comparisons never see numpy scalars)"""
+    import numbers
+
+    if isinstance(x, bool):
+        return x
+    if isinstance(x, numbers.Real):
+        return float(x)
+    if isinstance(x, (list, tuple)):
+        return [plainnum(v) for v in x]
+    return x
 
 
 def replay_thr(arg):
@@ -45,7 +65,7 @@ def replay_thr(arg):
     if isinstance(py0, list) and py0:        # (an empty list is "no threshold row at all": the helpers have nothing to check)
         from perception_eval.common.threshold import check_nested_thresholds, check_thresholds
 
-        normal = out[0] != "err" and py0 == ([list(r) for r in out[1]] if nest else list(out[1]))
+        normal = out[0] != "err" and plainnum(py0) == plainnum([list(r) for r in out[1]] if nest else list(out[1]))
         try:
             (check_nested_thresholds if nest else check_thresholds)(copy.deepcopy(py0), n)
             acc = True
@@ -66,12 +86,12 @@ def replay_thr(arg):
         return [("rejected-wellformed", "set_thresholds(%r, %d, %s) raised" % (py, n, nest), rep)]
     want = [list(r) for r in out[1]] if nest else list(out[1])
     mism = []
-    if json.dumps(got) != json.dumps(want) and got != want:
+    if plainnum(got) != plainnum(want):
         mism.append(("wrong-value", "set_thresholds(%r, %d, %s) = %r, specification %r" % (py, n, nest, got, want), rep))
     else:
         try:
             again = set_thresholds(got, n, nest)
-            if again != got:
+            if plainnum(again) != plainnum(got):
                 mism.append(("not-idempotent", "normalising %r again gives %r" % (got, again), rep))
         except Exception as ex:
             mism.append(("not-idempotent", "normalising %r again raised %r" % (got, ex), rep))
